@@ -266,3 +266,30 @@ Theorem str_roundtrip src r : Requirement src = RqOk r -> rq_no_gap r -> rq_mark
   exists r', Requirement (req_str r) = RqOk r' /\ req_eq r r' = true /\ req_str r' = req_str r.
 Proof. intros H. apply roundtrip. eapply Requirement_sound; eauto. Qed.
 Print Assumptions str_roundtrip.
+
+(* ------------------------------------------------------------------ str() is a deterministic rendering ------------------- *)
+(* the string depends on the extras only as a set, and on the clauses only as a multiset - as long as no two clauses are equal with
+   different spellings (then the first one supplied is printed: finding D33, reported under C20) *)
+Theorem req_str_deterministic a b :
+  q_name a = q_name b -> (forall e, In e (q_extras a) <-> In e (q_extras b)) ->
+  Permutation (q_specs a) (q_specs b) -> NoDup (map rq_ckey (q_specs a)) ->
+  q_url a = q_url b -> q_marker a = q_marker b -> req_str a = req_str b.
+Proof.
+  intros Hn He Hs Hnd Hu Hm. unfold req_str. rewrite Hn, Hu, Hm.
+  assert (E1 : rq_extras_sorted a = rq_extras_sorted b).
+  { apply set_eqb_repr. unfold rq_set_eqb. rewrite andb_true_iff, !incl_iff. split; intros x Hx; now apply He. }
+  assert (E2 : match q_extras a with [] => [] | _ :: _ => 91 :: rq_join [44] (rq_extras_sorted a) ++ [93] end
+             = match q_extras b with [] => [] | _ :: _ => 91 :: rq_join [44] (rq_extras_sorted b) ++ [93] end).
+  { rewrite E1. destruct (q_extras a) as [|x xs] eqn:Ea, (q_extras b) as [|y ys] eqn:Eb; auto; exfalso.
+    - exact (proj2 (He y) (or_introl eq_refl)).
+    - exact (proj1 (He x) (or_introl eq_refl)). }
+  assert (E3 : match q_specs a with [] => [] | _ :: _ => rq_set_str (q_specs a) end
+             = match q_specs b with [] => [] | _ :: _ => rq_set_str (q_specs b) end).
+  { assert (Hnd' : NoDup (map rq_ckey (q_specs b))) by (eapply Permutation_NoDup; [apply Permutation_map; exact Hs|exact Hnd]).
+    assert (S : rq_set_str (q_specs a) = rq_set_str (q_specs b)).
+    { unfold rq_set_str. rewrite (dedup_id (q_specs a) []), (dedup_id (q_specs b) []) by (auto; intros x _ []).
+      f_equal. apply sort_perm_eq. now apply Permutation_map. }
+    destruct (q_specs a) as [|x xs] eqn:Ea, (q_specs b) as [|y ys] eqn:Eb; auto. }
+  rewrite E2, E3. reflexivity.
+Qed.
+Print Assumptions req_str_deterministic.
